@@ -172,9 +172,9 @@ pub fn lex(song: &mut Song, src: &str, lineno: isize) -> Vec<Token> {
             '&' => result.push(read_tie_error(&mut cur, song)), // @ tie, slur - タイ・スラー(Slurコマンドで動作が変更できる)
             // </CHAR_COMMANDS>
             _ => {
+                // the unknown character itself has already been consumed by get_char()
                 let msg = format!("{}", ch);
                 lex_error(&mut cur, song, &msg);
-                cur.next();
             }
         }
     }
